@@ -1,6 +1,7 @@
 """C07 — Secure implies an unbroken chain to a trust anchor: origin census of Proof::Secure /
 Proof::Insecure, DS->DNSKEY guard set, who writes Record.proof, verify_response exits, server AD/SERVFAIL mapping."""
 import re
+import argnames
 import helpers
 from collections import Counter
 from api import shorten, writers, Site
@@ -176,6 +177,20 @@ def run(cx):
         cx.guard('C07.G2', oks, {'secure-DS-present': rf'^Iterator::any\(Iterator::filter\(slice::iter\({LK}@Ready\.0@Ok\.0\.answers\),',
                                  'supported-non-empty': r'^!Vec::is_empty\('}, expect=1, fn=f)
 
+    # find_ds_records: the search for the enclosing zone cut walks up from the name and asks the zone it finds for its DS; "no DS,
+    # proven" makes everything below Insecure.  The ROOT has no parent and no DS by construction - it is the trust anchor zone -
+    # so it must never be accepted as the cut whose missing DS downgrades a name: the DS fetch is reached only for a non-root
+    # ancestor that answered the NS probe with an NS record
+    fd = cx.fn('C07.G2', N + 'DnssecDnsHandle::find_ds_records::{closure#0}')
+    if fd:
+        ANC = r'phi\(\^arg2\|Name::base_name\(rec\(_\d+\)\)\)'
+        fe = cx.calls(fd, r'DnssecDnsHandle<H>::fetch_ds_records$|DnssecDnsHandle::fetch_ds_records$')
+        cx.guard('C07.G2', fe, {'zone-cut-is-not-the-root': rf'^!Name::is_root\({ANC}\)$',
+                                'ancestor-has-NS-records': rf'^Iterator::any\(Message::all_sections\(await\(FirstAnswer::first_answer\(DnsHandle::lookup\(\^arg1\.handle,Query::new\({ANC},RecordType::NS\),\^arg3\)\)\)@Ready\.0@Ok\.0\),closure:.*\)$'},
+                 expect=1, fn=fd)
+        for s_ in fe:
+            cx.check('C07.G2', bool(re.search(rf'^DnssecDnsHandle::fetch_ds_records\(\^arg1,{ANC},\^arg3\)$', s_.term)), fd.path, s_.key(), 'ds-asked-of-the-ancestor-found', s_.term[:160], s_.loc)
+
     # ---------------------------------------------------------------- W2 writers of Record.proof; send()
     ws = writers(cx.prog, r'^hickory_proto::rr::record::Record$', r'^proof$')
     stores = [w for w in ws if w[4] in ('store', 'mutref')]
@@ -270,3 +285,8 @@ def run(cx):
 
     # ---------------------------------------------------------------- H helper semantics the guards above rely on (rules/helpers.py)
     helpers.check(cx, 'C07.H', ['Proof::is_secure', 'DS::covers', 'Algorithm::is_supported', 'Name::zone_of', 'DNSKEY::zone_key', 'DNSKEY::revoke', 'Name::base_name'])
+
+    # ---------------------------------------------------------------- N1 argument names agree with the parameters they are bound to (engine/argnames.py)
+    argnames.check(cx, 'C07.N1', r'hickory_net::dnssec', floor=80)
+    argnames.check_fields(cx, 'C07.N1', r'hickory_net::dnssec', floor=45)
+
